@@ -142,6 +142,18 @@ def _sim_hash(self):
         return h
 
 
+def _sim_id(obj):
+    """Stands in for the builtin `id` inside the mininec modules (a module
+    global shadows the builtin).  For pymininec objects the identity number
+    follows the hash oracle, so that anything ordered or keyed by id() gets
+    opposite orders in history and oracle; other objects keep their real id."""
+    d = getattr(obj, '__dict__', None)
+    if d is not None and type(obj).__module__.startswith('mininec'):
+        fired('id_assigned')
+        return (_sim_hash(obj) << 4) + 0x7f0000000000
+    return id(obj)
+
+
 # ---------------------------------------------------------------------- disk
 
 class DiskFault(OSError):
@@ -290,6 +302,8 @@ class Seams:
             cls = getattr(mm, name)
             cls.__hash__ = _sim_hash
         import importlib
+        for modname in ('mininec.mininec', 'mininec.pulse', 'mininec.segment', 'mininec.taper', 'mininec.util'):
+            importlib.import_module(modname).id = _sim_id
         for modname, name in HASHED_EXTRA:
             cls = getattr(importlib.import_module(modname), name)
             if getattr(cls, '__eq__', object.__eq__) is object.__eq__:
